@@ -1440,6 +1440,45 @@ func (g *gen) anyNode(action string) *NodeSpec {
 func genC18(prop, tier string, r *rand.Rand) *Scn {
 	g := newGen(prop, tier, r)
 	g.failP = 0
+	if r.IntN(8) == 0 {
+		// a polling step: connected to itself on the default action, it reports the
+		// empty action round after round and something else in the end. The default
+		// connection is followed every time, also when it leads where we are
+		g.kinds = []string{"base", "plain", "func", "retry"}
+		rounds := 2 + r.IntN(3)
+		n := g.leaf(rounds)
+		if hasPhase(n, 2) {
+			for v := range n.Visits {
+				n.Visits[v].Prep.Fail = ""
+				if len(n.Visits[v].Exec) > 0 {
+					n.Visits[v].Exec = []Outcome{{Pay: g.pay()}}
+				}
+				n.Visits[v].Post = Outcome{Action: pick(r, []string{"", "", "default"})}
+			}
+			n.Visits[rounds-1].Post = Outcome{Action: "a"}
+			w := g.leaf(1)
+			f := &NodeSpec{ID: len(g.sc.Nodes), Kind: "flow", Start: n.ID}
+			f.Conns = []Conn{{From: n.ID, Action: "default", To: n.ID}, {From: n.ID, Action: "a", To: w.ID}}
+			if r.IntN(2) == 0 {
+				// ... entered from a step that also ended on the default action
+				pre := g.leaf(1)
+				pre.Visits[0].Prep.Fail = ""
+				if len(pre.Visits[0].Exec) > 0 {
+					pre.Visits[0].Exec = []Outcome{{Pay: g.pay()}}
+				}
+				pre.Visits[0].Post = Outcome{Action: ""}
+				f.ID = len(g.sc.Nodes)
+				f.Start = pre.ID
+				f.Conns = append(f.Conns, Conn{From: pre.ID, Action: "default", To: n.ID})
+			}
+			g.sc.Nodes = append(g.sc.Nodes, f)
+			g.sc.Root = f.ID
+			g.sc.Runs = 1
+			return g.sc
+		}
+		g = newGen(prop, tier, r)
+		g.failP = 0
+	}
 	// custom actions include blank-looking ones: only the empty action is normalised
 	action := pick(r, []string{"", "", "", "default", "a", "b", " ", "\t\n", " a"})
 	n := g.anyNode(action)
